@@ -39,10 +39,13 @@ def run_demo(tree, demo):
         rc, out = sh("go run ./zz_demo", cwd=tree)
         shutil.rmtree(os.path.join(tree, "zz_demo"))
         return rc, out
-    dst = os.path.join(tree, "zz_demo_test.go")
+    src = open(demo).read()
+    pkg = re.search(r"^package (\w+)", src, re.M).group(1)
+    sub = {"zog": ".", "zog_test": ".", "zhttp": "zhttp", "zhttp_test": "zhttp", "internals": "internals", "conf": "conf", "zenv": "zenv", "zjson": "parsers/zjson", "i18n": "i18n"}.get(pkg, ".")
+    dst = os.path.join(tree, sub, "zz_demo_test.go")
     shutil.copy(demo, dst)
-    names = re.findall(r"^func (Test\w+)\(", open(demo).read(), re.M)
-    rc, out = sh("go test -vet=off -count=1 -run '^(%s)$' ." % "|".join(names), cwd=tree)
+    names = re.findall(r"^func (Test\w+)\(", src, re.M)
+    rc, out = sh("go test -vet=off -count=1 -run '^(%s)$' ./%s" % ("|".join(names), sub), cwd=tree)
     os.remove(dst)
     return rc, out
 
